@@ -66,6 +66,7 @@ class Model:
         exits = helpers.load_exits()
         self.renested = helpers.renest_moved_functions(self.modules, exits)
         self.helpers_inlined = helpers.inline_new_helpers(self.modules, exits)
+        self.helpers_inlined += helpers.inline_new_procedures(self.modules, exits)
         star_comps = helpers.load_star_comps()
         for n_, t_ in self.modules.items():
             helpers.beta_reduce(t_)
